@@ -23,7 +23,8 @@ LEVEL = ("error discipline and accounting over all paths: no value whose static 
          "error lists are concatenated up to the CLI and the collections that carry the per-operation diagnostics are handed on entire "
          "(accumulator -> result of from_data -> GeneratorData, no filtered copy, no removal); the method list equals the Operation "
          "fields of PathItem; one iteration over enumerated items reads its own item only, never another entry of the collection it "
-         "goes through; the mapping handed to GeneratorData.from_dict is, entire, what the loading call returned.  Comprehensions over "
+         "goes through; the mapping handed to GeneratorData.from_dict is, entire, what the loading call returned; an object that carries "
+         "diagnostics (a field declared list of errors) copied field by field or evolved keeps all of them.  Comprehensions over "
          "document items are read as the loops they abbreviate (a per-item local function / private helper as the loop body); a "
          "generator's `yield` hands a value on like `return`.")
 
@@ -60,6 +61,11 @@ def run(rep: Report, ctx: Any) -> str:
     rep.rule("R07.10", "the document that is parsed is the document that was loaded: what GeneratorData.from_dict is handed is, entire, "
                        "what the loading call returned (any local name, a whole copy) - no call in between that takes the loaded mapping "
                        "and returns another, no filtered copy, no removal; from_dict does not re-bind or prune its document parameter")
+
+    rep.rule("R07.11", "a copy keeps the diagnostics recorded so far: where an object of a class that carries diagnostics (a field declared as "
+                       "a list of errors) is built from the fields of an existing object of that class - C(f=S.f, g=copy(S.g), ...) - or "
+                       "derived from one with that field replaced - evolve(S, errors=...) -, the new list of diagnostics contains all of "
+                       "the old one")
 
     # ---- R07.1 -------------------------------------------------------------------------------------------------------
     returns_err: dict[str, list[Any]] = {}
@@ -307,6 +313,26 @@ def run(rep: Report, ctx: Any) -> str:
     rep.check(why_in is None, "R07.10", "GeneratorData.from_dict::document-untouched", "from_dict re-binds or prunes the document it was handed "
               "before validating it", where(gd, gd.node), lhs=why_in, rhs=f"`{doc_param}` is read, never re-bound, nothing removed from it")
 
+    # ---- R07.11 -----------------------------------------------------------------------------------------------------------------------
+    n_copies = 0
+    carriers = _diagnostic_carriers(ix)
+    rep.require(carriers, "a class of the parser with a field declared as a list of errors")
+    for f in ix.all_functions:
+        if not (f.module.name.startswith(f"{PKG}.parser") or f.module.name == PKG):
+            continue
+        for c, cname, src, given in _copies(ix, f, carriers):
+            for acc in carriers[cname]:
+                if src is None or (acc not in given and given.get("<whole>") is not None):
+                    continue  # evolve(S, ...) that leaves the accumulator alone keeps it
+                n_copies += 1
+                v = given.get(acc)
+                have = _elements(_through_copies(v), f.node, _loop_env(f.node, c)) if v is not None else set()
+                rep.check(f"{src}.{acc}" in have, "R07.11", f"{short(f)}::copy of {cname} keeps {acc} [{anon(ast.parse(src, mode='eval').body, local_names(f.node))}]",
+                          f"a {cname} is built from the fields of an existing one and its list of diagnostics `{acc}` is not handed over entire: "
+                          "what was recorded on the original so far is lost with it", where(f, c),
+                          lhs=norm(v)[:70] if v is not None else f"no `{acc}=`", rhs=f"{acc}=<all of {src}.{acc}> (the list, a copy, or a list that contains it)")
+    rep.floor("diagnostic_carrier_copies", n_copies, 0)  # such copies may legitimately not exist: nothing to guard against
+
     b = ix.func("Project.build")
     rets = [n for n in ast.walk(b.node) if isinstance(n, ast.Return)]
     rep.check(any(norm(_inline_locals(r.value, b.node)) == "self._get_errors()" for r in rets if r.value is not None), "R07.5", "Project.build::returns-errors",
@@ -389,6 +415,70 @@ def run(rep: Report, ctx: Any) -> str:
               f"the method list {meth} differs from the Operation fields of PathItem {ops}", where(fd, fd.node), lhs=meth, rhs=ops)
     rep.not_decided.append("the census itself; response media types other than the first supported one are ignored by design")
     return LEVEL
+
+
+# ---- copies of objects that carry diagnostics --------------------------------------------------------------------------------------------
+_COPYING = {"deepcopy", "copy", "set", "list", "dict", "tuple", "sorted", "frozenset"}
+
+
+def _through_copies(e: "ast.AST | None") -> "ast.AST | None":
+    """the value behind copy(x) / deepcopy(x) / list(x) / x.copy(): the same elements"""
+    while isinstance(e, ast.Call):
+        if call_name(e).rsplit(".", 1)[-1] in _COPYING and len(e.args) == 1 and not e.keywords:
+            e = e.args[0]
+        elif isinstance(e.func, ast.Attribute) and e.func.attr == "copy" and not e.args:
+            e = e.func.value
+        else:
+            break
+    return e
+
+
+def _diagnostic_carriers(ix: Any) -> dict[str, list[str]]:
+    """class name -> its fields declared as a list of errors (the diagnostics recorded on the object)"""
+    out: dict[str, list[str]] = {}
+    for c in ix.classes.values():
+        if not (c.module.name.startswith(f"{PKG}.parser") or c.module.name == PKG):
+            continue
+        for fld, ann in ix.all_fields(c).items():
+            if isinstance(ann, ast.Constant) and isinstance(ann.value, str):
+                try:
+                    ann = ast.parse(ann.value, mode="eval").body
+                except SyntaxError:
+                    continue
+            if isinstance(ann, ast.Subscript) and norm(ann.value).rsplit(".", 1)[-1] in ("list", "List") and \
+                    (dotted_name(ann.slice) or "").rsplit(".", 1)[-1] in ERROR_CLASSES:
+                out.setdefault(c.name, []).append(fld)
+    return out
+
+
+def _copies(ix: Any, f: Any, carriers: dict[str, list[str]]) -> list[tuple[ast.Call, str, "str | None", dict[str, Any]]]:
+    """(call, class, source, keyword -> value) for the calls in f that make an object of a diagnostics-carrying class out of an
+    existing one: C(k=S.k, ...) with at least two fields read (possibly through copy / deepcopy / list ...) from the same-named fields
+    of one object S of class C; evolve(S, k=...) / replace(S, k=...) on an S of class C (marked by the key `<whole>`)"""
+    out: list[tuple[ast.Call, str, str | None, dict[str, Any]]] = []
+    for c in _own_walk(f.node):
+        if not isinstance(c, ast.Call):
+            continue
+        last = call_name(c).rsplit(".", 1)[-1]
+        kws = {k.arg: k.value for k in c.keywords if k.arg}
+        whole = _through_copies(c.args[0]) if last in ("evolve", "replace") and c.args else None
+        if whole is not None and dotted_name(whole):
+            for cname in sorted(receiver_classes(ix, f, whole) & set(carriers)):
+                out.append((c, cname, dotted_name(whole), {**kws, "<whole>": whole}))
+            continue
+        cname = f.cls.name if last == "cls" and f.cls is not None else last
+        if cname not in carriers:
+            continue
+        by_src: dict[str, list[str]] = {}
+        for k, v in kws.items():
+            v = _through_copies(v)
+            if isinstance(v, ast.Attribute) and v.attr == k and dotted_name(v.value):
+                by_src.setdefault(dotted_name(v.value), []).append(k)
+        for src, ks in sorted(by_src.items()):
+            root = ast.parse(src, mode="eval").body
+            if len(ks) >= 2 and cname in receiver_classes(ix, f, root):
+                out.append((c, cname, src, kws))
+    return out
 
 
 # ---- which function a call denotes ------------------------------------------------------------------------------------------------------
